@@ -56,7 +56,13 @@ impl core::ops::Deref for Bytes {
     fn deref(&self) -> (r: &[u8]) ensures r@ == self@ { unimplemented!() }
 }
 
+// UTF-8 bytes of a String (uninterpreted; related to other things only through the stand-ins that mention it)
+pub uninterp spec fn string_bytes(s: String) -> Seq<u8>;
+
 impl Bytes {
+    // Bytes::from(String): takes over the string's bytes
+    #[verifier::external_body]
+    pub fn from(s: String) -> (r: Bytes) ensures r@ == string_bytes(s) { unimplemented!() }
     #[verifier::external_body]
     pub fn new() -> (r: Bytes) ensures r@ == Seq::<u8>::empty() { unimplemented!() }
     #[verifier::external_body]
